@@ -66,11 +66,20 @@ def replay_case(chk: core.Check, case: dict, units) -> None:
                       {"case": case, "entry": entry, "got": repr(got), "required": sorted(req)})
 
     if op == "dist":
-        for U in units:
+        # the model is about ORDER: its half-integer grid is embedded into the floats by any increasing map. Besides the plain
+        # one (k/2 in every unit) two TIGHT ones in the library's own unit: neighbouring grid points are neighbouring floats
+        # (around 3600 in, and the denormals above 0), so a query "between two rows" is one ulp above the lower row
+        embeddings = [(U, (lambda k: k / 2.0), "plain") for U in units]
+        if (sum(col) + q2) % 3 == 0 or n <= 2:
+            ulp = math.ulp(3600.0)
+            embeddings += [(m.Unit.Inch, (lambda k: 3600.0 + k * ulp), "tight"), (m.Unit.Inch, (lambda k: k * 5e-324), "tight")]
+        for U, val, emb in embeddings:
             exact_unit = U in (m.Unit.Inch, m.Unit.Foot, m.Unit.Yard)
             if not exact_unit and q2 % 2 == 0:
                 continue  # metric units do not round-trip exactly: only queries strictly between row values
-            rows = [impl.make_row(time=float(i), distance=U(float(v)), flag=_flag(i, q2 + n)) for i, v in enumerate(col)]
+            rows = [impl.make_row(time=float(i), distance=U(val(2 * v)), flag=_flag(i, q2 + n)) for i, v in enumerate(col)]
+            if emb == "tight":
+                chk.stratum("rows_and_queries_one_ulp_apart")
             if (sum(col) + q2 + n) % 2:
                 # display history: the caller has looked at every other row in another unit (`<<` re-labels in place, the
                 # magnitude is untouched): the order of the rows is the order of their magnitudes, whatever they display in
@@ -80,7 +89,7 @@ def replay_case(chk: core.Check, case: dict, units) -> None:
                         r_.look_distance << units[(units.index(U) + 2 + i) % len(units)]
                 chk.stratum("rows_in_mixed_display_units")
             hr = m.HitResult(shot, rows, False)
-            q = q2 / 2.0
+            q = val(q2)
             entries = {
                 "HitResult.index_at_distance": lambda: hr.index_at_distance(U(q)),
                 "helpers.find_index_of_point_for_distance": lambda: H.find_index_of_point_for_distance(hr, q, U),
@@ -91,7 +100,7 @@ def replay_case(chk: core.Check, case: dict, units) -> None:
             }
             for name, fn in entries.items():
                 o = impl.outcome(fn)
-                chk.count(1, (op, tuple(col), q2, name, int(U)) if nontrivial else None)
+                chk.count(1, (op, tuple(col), q2, name, int(U), emb) if nontrivial else None)
                 if o[0] != "ok":
                     bad("C20.WrongException", name, o[1], U)
                 elif o[1] not in req:
@@ -174,7 +183,7 @@ def run(chk: core.Check, replay=None) -> None:
         chk.traces += 1
     for c in cases[:: max(1, len(cases) // 5)][:5]:
         chk.sample(c)
-    chk.require_strata(["dist", "time", "near", "apex", "empty", "repeats", "sentinel", "rows_in_mixed_display_units"])
+    chk.require_strata(["dist", "time", "near", "apex", "empty", "repeats", "sentinel", "rows_in_mixed_display_units", "rows_and_queries_one_ulp_apart"])
     chk.rule.append("every non-decreasing sequence (len<=%d over 0..%d) x every (half-)integer query x every entry point, "
                     "generated by TLC from Gen_Lookup; non-trivial = sequence length >= 2; distinct by (op, sequence, "
                     "query, entry point, unit)" % (maxlen, maxval))
